@@ -146,6 +146,10 @@ class _FakeFeature:
     def to_str(self):
         return self.id
 
+    def merge(self, other):
+        # ProfileFeatureCounter (fix a72c642) joins the descriptions of one row; a stand-in has a single description
+        return self
+
 
 class _FakePRead:
     def __init__(self, r):
